@@ -18,7 +18,7 @@ def jobs(pid, tier):
                                     ('not', 'and', 'or', 'xor', 'implies', 'equiv', 'diff',
                                      'forall', 'exists', 'ite')] + ['arity_refused']))
         J.append(Job('k8_gc', dict(N=4, L=2, roots=0, nondet=False, ce=1), need_outcomes=['collected']))
-        J.append(Job('k6_autoref_ops', dict(N=5, L=3) if q else dict(N=6, L=3),
+        J.append(Job('k6_autoref_ops', dict(N=5, L=3) if q else dict(N=6, L=2),
                      need_outcomes=['returned:' + o for o in
                                     ('~', '&', '|', 'implies', 'equiv', '<=', '<', '==', '!=', 'ite')]))
     if pid == 'C02':
@@ -36,8 +36,10 @@ def jobs(pid, tier):
             J.append(Job('k8_gc', dict(N=5, L=3, roots=0, nondet=False), need_outcomes=['collected']))
             J.append(Job('k3_ite', dict(N=3, L=2, K=2), need_outcomes=['created']))
     if pid == 'C03':
-        J.append(Job('quant', dict(N=4, L=2), need_outcomes=['returned:' + e for e in
-                     ('quantify_names', 'quantify_levels', 'exist_forall', 'apply')]))
+        J.append(Job('quant', dict(N=4, L=2, entries=['quantify_names', 'quantify_levels', 'exist_forall', 'apply',
+                                                      'autoref_quantify', 'autoref_exist_forall']),
+                     need_outcomes=['returned:' + e for e in
+                     ('quantify_names', 'quantify_levels', 'exist_forall', 'apply', 'autoref_quantify')]))
         J.append(Job('quant', dict(N=3, L=3, entries=['quantify_names', 'apply']),
                      need_outcomes=['returned:quantify_names']))
         if q:
@@ -46,7 +48,7 @@ def jobs(pid, tier):
         else:
             J.append(Job('quant', dict(N=6, L=3), need_outcomes=['returned:quantify_names']))
     if pid == 'C04':
-        J.append(Job('let', dict(N=4, L=2), need_outcomes=['returned:' + e for e in
+        J.append(Job('let', dict(N=4, L=2, via=['bdd', 'autoref']), need_outcomes=['returned:' + e for e in
                      ('cofactor', 'compose1', 'compose2', 'rename', 'empty')]))
         J.append(Job('let', dict(N=4 if q else 5, L=3, kinds=['cofactor', 'compose1', 'rename']),
                      need_outcomes=['returned:cofactor', 'returned:compose1', 'returned:rename']))
@@ -74,8 +76,11 @@ def jobs(pid, tier):
         J.append(Job('k7_swap', dict(N=4, L=2, x=0, K=2), need_outcomes=['swapped']))
         J.append(Job('k7_swap', dict(N=4, L=3, x=0, K=2), need_outcomes=['swapped']))
         J.append(Job('k7_swap', dict(N=4, L=3, x=1, K=2, by='name'), need_outcomes=['swapped']))
+        J.append(Job('reorder_e2e', dict(N=3, L=3, K=2, kinds=['to_order', 'to_pairs'] if q else ['to_order', 'to_pairs', 'sift']),
+                     need_outcomes=['reordered:to_order', 'reordered:to_pairs']))
         J.append(Job('sched', dict(L=3), need_outcomes=['done:' + k for k in
                      ('sift', 'to_order', 'to_pairs', 'autoref_sift', 'autoref_order', 'shift')]))
+        J.append(Job('sched', dict(L=4, kinds=['to_pairs', 'to_order']), need_outcomes=['done:to_pairs']))
         if not q:
             J.append(Job('k7_swap', dict(N=5, L=3, x=0, K=3), need_outcomes=['swapped']))
             J.append(Job('k7_swap', dict(N=5, L=3, x=1, K=3, by='reversed'), need_outcomes=['swapped']))
@@ -89,7 +94,12 @@ def jobs(pid, tier):
         J.append(Job('k7_swap', dict(N=4, L=2, x=0, K=2, handle=True), need_outcomes=['swapped']))
         J.append(Job('k8_gc', dict(N=4, L=2, roots=0, nondet=True), need_outcomes=['collected']))
     if pid == 'C09':
-        J.append(Job('dynreorder', dict(N=3, L=2, fires=1), need_outcomes=['fired:ite', 'quiet:ite', 'fired:quantify']))
+        J.append(Job('dynreorder', dict(N=3, L=2, fires=1 if q else 2), need_outcomes=['fired:ite', 'quiet:ite', 'fired:quantify']))
+        # the reorder contract with a real change of order (every permutation), decorated operations
+        deco = ['ite', 'apply_and', 'quantify', 'forall_method', 'apply_forall', 'quantify_kw', 'cofactor',
+                'compose', 'rename', 'cube', 'var', 'add_expr']
+        J.append(Job('dynreorder', dict(N=3, L=2, fires=1, permute=True, ops=deco if q else None),
+                     need_outcomes=['fired:ite', 'fired:apply_forall', 'fired:rename']))
     if pid == 'C10':
         J.append(Job('sat', dict(N=4, L=2), need_outcomes=['returned:' + e for e in
                      ('support', 'essential', 'count', 'pick_iter', 'pick')]))
@@ -103,8 +113,12 @@ def jobs(pid, tier):
         J.append(Job('copy', dict(N=4, L=3, NT=2 if q else 3, extra=0, variants=['copy_bdd'] if q else ['copy_bdd', '_copy.copy_bdd']),
                      need_outcomes=['returned:copy_bdd']))
     if pid == 'C12':
-        J.append(Job('pickle_rt', dict(N=4, L=2, NT=3), need_outcomes=['loaded:' + v for v in
+        allv = ['fresh_list', 'fresh_dict', 'fresh_rootless', 'declared_same', 'declared_other_levels',
+                'declared_other_nolevels', 'manager']
+        J.append(Job('pickle_rt', dict(N=3 if q else 4, L=2, NT=3), need_outcomes=['loaded:' + v for v in
                      ('fresh_list', 'fresh_dict', 'fresh_rootless', 'declared_same', 'declared_other_nolevels', 'manager')] + ['refused']))
+        J.append(Job('pickle_rt', dict(N=4, L=2, NT=3, variants=['declared_same', 'declared_other_nolevels', 'manager']),
+                     need_outcomes=['loaded:declared_same']))
         J.append(Job('pickle_rt', dict(N=3, L=3, NT=2, variants=['declared_other_nolevels']),
                      need_outcomes=['loaded:declared_other_nolevels']))
     if pid == 'C13':
@@ -113,6 +127,9 @@ def jobs(pid, tier):
         J.append(Job('image', dict(N=4, L=4, which=['preimage'], minpairs=2, maxpairs=2, styles=['levels'],
                                qsets='values', foralls=[0], forward_only=q),
                      need_outcomes=['returned:preimage']))
+        J.append(Job('image', dict(N=3 if q else 4, L=4, which=['image_nonadjacent'], minpairs=2, maxpairs=2,
+                               styles=['levels'], qsets='values', foralls=[0]),
+                     need_outcomes=['returned:image_nonadjacent']))
         if not q:
             J.append(Job('image', dict(N=3, L=3, maxpairs=1, styles=['names']),
                          need_outcomes=['returned:preimage', 'returned:image', 'returned:image_nonadjacent']))
